@@ -700,4 +700,6 @@ def run(ctx):
     ctx.guard(r8, ctx, prog)
     ctx.guard(r9, ctx, prog)
     ctx.guard(r10, ctx, prog)
+    from rules import C17_replay
+    ctx.guard(C17_replay.r11, ctx, prog)
     return prog
